@@ -1,6 +1,6 @@
 (* C12 - current_context() follows strict per-task stack discipline. *)
 From Coq Require Import List Bool Arith.
-From Asphalt Require Import Conc.CurCtx Conc.CurCtxProofs.
+From Asphalt Require Import Conc.CurCtx Conc.CurCtxProofs Td.Lifecycle Gen.Gen_lifecycle.
 Import ListNotations.
 
 (* current_context() is the innermost context the observing task itself is in *)
@@ -71,3 +71,15 @@ Theorem C12_isolation : forall h s u,
   u < length s -> (forall o, In o h -> actor o <> u) -> nth_error (run s h) u = nth_error s u.
 Proof. exact others_invisible. Qed.
 Print Assumptions C12_isolation.
+
+(* while the teardown callbacks of a context run, the context is still the current one (and still
+   listed by its parent, its task group still open); the current context is reset only afterwards,
+   and after the exit nothing of it is left in place *)
+Theorem C12_current_during_teardown : forall has_parent,
+  seen_by_callbacks has_parent = Some (Around true has_parent (negb has_parent)).
+Proof. exact callbacks_see_everything_in_place. Qed.
+Print Assumptions C12_current_during_teardown.
+
+Theorem C12_reset_on_exit : forall has_parent, after_exit has_parent = Around false false false.
+Proof. exact everything_released. Qed.
+Print Assumptions C12_reset_on_exit.
